@@ -47,6 +47,11 @@ class Check(BaseCheck):
             nv = len(c["v"])
             if len(np.unique(c["t"])) == nv and nv >= 6:
                 yield dict(kind="tri", v=c["v"], t=c["t"], k=int(min(nv - 2, rng.integers(3, 7))), lump=bool(rng.random() < 0.4), name=c["name"], pres=c.get("pres"), vdtype=c.get("vdtype"))
+        # the smallest tetra meshes: one, two, three tetrahedra (element count below the tuple width)
+        p = np.array([[0, 0, 0], [1, 0, 0], [0, 1, 0], [0, 0, 1], [1, 1, 1], [-1, 0.2, 0.3]], float) + 0.05 * rng.normal(size=(6, 3))
+        for nt_, tt_ in ((1, [[0, 1, 2, 3]]), (2, [[0, 1, 2, 3], [1, 2, 3, 4]]), (3, [[0, 1, 2, 3], [1, 2, 3, 4], [0, 2, 1, 5]])):
+            tt_ = np.array(tt_); nv_ = int(tt_.max()) + 1
+            yield dict(kind="tet", v=p[:nv_], t=gen.orient_tets_positive(p[:nv_], tt_), k=2, lump=bool(nt_ % 2), name="tiny-tet-%d" % nt_)
         for kk, c in enumerate(gen.tet_stream(seed + 102, max(3, n // 3), "small", modifiers=False)):
             nv = len(c["v"])
             if len(np.unique(c["t"])) == nv and nv >= 6:
